@@ -225,11 +225,17 @@ type c13InScen struct {
 	Ops   []c13InOp `json:"ops"`
 	Final string    `json:"final"` // "" | alias_over | alias_zero | quota_over | size_over
 	Burst int       `json:"burst"` // PINGREQs pipelined in the same write as the violating packet (keeps the writer busy)
+	// HookP > 0: an OnBasicAuth hook sets ConnectRequest.Options.MaxPacketSize of the publishing client to this value
+	// (larger or smaller than the configured one); what CONNACK then advertises is the contract
+	HookP int `json:"hook_max_packet_size,omitempty"`
 }
 
 func genC13In(t *rapid.T) c13InScen {
 	s := c13InScen{R: rapid.SampledFrom([]int{1, 2, 5, 100, 65535}).Draw(t, "R"), T: rapid.SampledFrom([]int{0, 1, 5, 10, 65535}).Draw(t, "T"),
 		P: rapid.SampledFrom([]int{64, 256, 268435456}).Draw(t, "P"), MI: rapid.SampledFrom([]int{1, 10, 100, 65535}).Draw(t, "MI")}
+	if rapid.IntRange(0, 3).Draw(t, "hook_p") == 0 {
+		s.HookP = rapid.SampledFrom([]int{100, 300, 1000}).Draw(t, "hook_p_value")
+	}
 	n := rapid.IntRange(1, 14).Draw(t, "nops")
 	for i := 0; i < n; i++ {
 		switch k := rapid.IntRange(0, 9).Draw(t, "kind"); {
@@ -287,6 +293,18 @@ func runC13In(s c13InScen, c *ev.Case) *ev.Violation {
 			mu.Unlock()
 		}
 	}}
+	if s.HookP > 0 {
+		hooks.OnBasicAuth = func(ctx context.Context, client server.Client, req *server.ConnectRequest) error {
+			if string(req.Connect.ClientID) == "P" {
+				req.Options.MaxPacketSize = uint32(s.HookP)
+			}
+			return nil
+		}
+		c.Label("hook_sets_maximum_packet_size")
+		if s.HookP > s.P {
+			c.Label("hook_raises_maximum_packet_size")
+		}
+	}
 	b, err := fixture.Start(fixture.Opts{Config: cfg, Hooks: hooks})
 	if err != nil {
 		return ev.Violf("C13.config-start", "broker does not start with a validator-accepted config: %v", err)
